@@ -247,6 +247,18 @@ def _batch_checks(ctx, n_datasets):
             ctx.case(dict(getitem=i, cases=cases, opt=opt))
             if P._code_img(got[0]) != items[i][0] or P._code_img(got[1]) != items[i][1]:
                 ctx.violate(f"RasterizedMazeDataset[{i}] with options {opt} is not the input/target pair of maze {i}", dict(cases=cases, opt=opt, index=i), key="unlisted")
+            else:
+                # the caller owns the item it was given (a training loop normalises or augments it in place): ask for it again afterwards
+                item = ds[i]
+                try:
+                    item[...] = 7
+                except Exception:
+                    item = None
+                if item is not None:
+                    again = np.asarray(ds[i])
+                    if P._code_img(again[0]) != items[i][0] or P._code_img(again[1]) != items[i][1]:
+                        ctx.violate(f"RasterizedMazeDataset[{i}] (options {opt}) asked for again after the caller had overwritten the item it was given first "
+                                    f"is no longer the input/target pair of maze {i}", dict(cases=cases, opt=opt, index=i, caller_edit=True), key="unlisted")
         # the options of a LIVE dataset are switched and the same items requested again: they must follow the options as they are now
         for _sw in range(2):
             new = ctx.rng.choice([o for o in OPTS if o != opt])
